@@ -143,21 +143,36 @@ Proof. exact top_udp_response_total. Qed.
 Print Assumptions C16_udp_response_total.
 
 (* ---- the datagram receive buffer ---- *)
-(* parsing only the octets received: a request is at least a header long and all
-   its questions lie within the datagram *)
-Theorem C16_dgram_received_only : dgram_parses_whole_buffer = false ->
-  forall d x, xreq_of_datagram d = Some x -> 12 + qs_len (x_qs x) <= len d.
+(* a request is at least a header long and all its questions lie within the
+   datagram's own octets *)
+Theorem C16_dgram_received_only : forall d x,
+  xreq_of_datagram d = Some x -> 12 + qs_len (x_qs x) <= len d.
 Proof. exact top_dgram_received_only. Qed.
 Print Assumptions C16_dgram_received_only.
 
-(* parsing the whole zero-padded buffer: a 12-octet datagram (STATUS, QDCOUNT
-   65535) is taken for 202 questions and answered by at least 512 octets *)
-Theorem C16_dgram_padding_refuted : dgram_parses_whole_buffer = true ->
-  exists x r, xreq_of_datagram pad_datagram = Some x /\ cnt (x_qs x) = 202 /\
-    udp_server x (Some 1232) (SvcOk (mk_response (x_base x) 144 0 1 15 0 11 None)) = Ok (Some r) /\
-    len pad_datagram = 12 /\ 512 <= mlen r.
-Proof. exact top_dgram_padding_refuted. Qed.
-Print Assumptions C16_dgram_padding_refuted.
+Theorem C16_t1_shape_constants :
+  frame_len_octets = 2 /\ frame_big_endian = true /\ shim_len = 2 /\ shim_big_endian = true /\
+  tc_octet = 2 /\ tc_bit = 1 /\ header_len = 12 /\ max_queued_default = 10 /\ rc_refused = 5 /\
+  stream_short_msg_disconnects = true /\ qr_request_gets_formerr = true /\
+  frame_prefix_read_exact = true /\ stream_full_queue_retries = true /\ svc_error_bypasses_middleware = true.
+Proof. exact t1_shape_constants. Qed.
+Print Assumptions C16_t1_shape_constants.
+
+(* ---- the cookies middleware's own rejections ---- *)
+(* built from an empty builder: no question section whatever the request asked
+   (a requestor matching responses by the question discards them) *)
+Theorem C16_cookie_reject_refuted : cookie_reject_echoes_question = false ->
+  forall rq cfg k r, hint_ok cfg -> cookie_reject_response rq cfg k = Ok r ->
+  m_id r = rq_id rq /\ m_qs r = [].
+Proof. exact top_cookie_reject_refuted. Qed.
+Print Assumptions C16_cookie_reject_refuted.
+
+Theorem C16_cookie_reject_echo : cookie_reject_echoes_question = true ->
+  forall rq cfg k r, hint_ok cfg -> Forall wf_q (firstn 1 (rq_qs rq)) ->
+  cookie_reject_response rq cfg k = Ok r ->
+  m_id r = rq_id rq /\ m_qs r = firstn 1 (rq_qs rq) /\ mlen r <= 282.
+Proof. exact top_cookie_reject_echo. Qed.
+Print Assumptions C16_cookie_reject_echo.
 
 (* ---- the stream server (EDNS non-UDP arm, edns-tcp-keepalive) ---- *)
 Theorem C16_tcp_server_framed : forall x idle svc r,
@@ -175,6 +190,18 @@ Theorem C16_keepalive_option : forall ms ka, keepalive_option ms = Some ka ->
   exists v, v = ms / 100 /\ v < 65536 /\ ka = [0; 11; 0; 2; v / 256; v mod 256].
 Proof. exact keepalive_option_spec. Qed.
 Print Assumptions C16_keepalive_option.
+
+(* ---- idle timeout, connection limit ---- *)
+Theorem C16_idle_open_spec : forall reset_at timeout now,
+  idle_open reset_at timeout now = true <-> now < reset_at + timeout.
+Proof. exact idle_open_spec. Qed.
+Print Assumptions C16_idle_open_spec.
+
+Theorem C16_connection_limit : forall max k num, num <= max ->
+  N.of_nat (length (filter (fun b => b) (served_connections max num k))) + num <= max /\
+  (N.of_nat k + num <= max -> served_connections max num k = repeat true k).
+Proof. exact served_connections_spec. Qed.
+Print Assumptions C16_connection_limit.
 
 (* ---- stream framing ---- *)
 Theorem C16_framing_exact : forall m f, frame_out m = Ok f ->
